@@ -664,7 +664,9 @@ class App:
             hstep = 2e-4
             scaleE = self.ref.K + self.ref.G + sum(g for g, _ in self.ref.branches)
         else:
-            hstep = 2e-4 * max(self.ref.Y0 / self.ref.E * 30, 1e-2)
+            # stencil half-width 4h must stay well inside the scale on which the energy varies (the yield strain):
+            # truncation ~ (h / yield strain)^8
+            hstep = min(2e-4, 0.02 * self.ref.Y0 / self.ref.E)
             scaleE = self.ref.E
         # premise: the stencil does not straddle the yield switch
         use = np.ones(npts, dtype=bool)
@@ -718,6 +720,21 @@ class App:
             tol1 = 1e-7 * s_scale + 200 * core.EPS * wmag / hstep
             tol2 = 1e-5 * scaleE + 2000 * core.EPS * wmag / hstep**2
             sig = {'model': self.mat['model'], 'kin': self.mat.get('kinematics'), 'rate': 'rate sensitivity' in self.mat}
+            if self.mat.get('kinematics') == 'seth hill':
+                # TensorMath.pow_symm documents that its derivative is inaccurate for nearly (not exactly)
+                # degenerate eigenvalues: the relative-difference formula loses ~eps/gap per derivative.
+                # At small strains C = F'F is nearly a multiple of the identity.
+                F_ = Hs[i] + np.eye(3)
+                wC = np.linalg.eigvalsh(F_.T @ F_)
+                gaps = np.array([abs(wC[a] - wC[b]) for a in range(3) for b in range(a + 1, 3)]) / wC[-1]
+                gaps = gaps[gaps > 0]
+                if gaps.size:
+                    gmin = float(np.min(gaps))
+                    tol1 += s_scale * 200 * core.EPS / gmin + scaleE * 200 * core.EPS
+                    tol2 += scaleE * 200 * core.EPS / gmin**2
+                    if 200 * core.EPS / gmin**2 > 1e-3:
+                        ctx.skip('C10.fd/pow_symm_documented_inaccuracy')
+                        continue
             ctx.require(abs(a1 - d1) <= tol1, 'C10', 'stress_vs_fd',
                         lambda: 'directional stress from autodiff %.12g vs finite difference of the energy %.12g (diff %.3g, tol %.3g)' % (a1, d1, a1 - d1, tol1), sig=sig)
             ctx.require(abs(a2 - d2) <= tol2, 'C10', 'tangent_vs_fd',
